@@ -134,6 +134,17 @@ func init() {
 			},
 		},
 		propCheck{
+			ID: "C11", Level: "exploration",
+			Rule: "one evaluation = one simulated history: 2-3 sessions, a pool of 3-6 query texts (IN / EXISTS / NOT IN / scalar / correlated subqueries, a CTE used twice, joins, LEFT JOIN + grouping, a view) re-executed plainly and through SQL PREPARE/EXECUTE between DML and DDL (CREATE/DROP INDEX, ANALYZE TABLE) of the same and other sessions, failed statements, injected storage errors, BEGIN/COMMIT/ROLLBACK (one open transaction at a time), reconnects, DEALLOCATE; oracle: warm result = result of the same text on a freshly opened session at the same instant = result on a freshly built engine loaded with the current rows; the same query twice in a row gives the same result; non-trivial = always (>= 2 sessions); distinct = distinct hash of the action sequence",
+			Real: []string{"plan caching / prepared statements, subquery and CTE caches (CachedResults), hash join build sides, session table snapshots", "memory backend"},
+			Stub: []string{"session scheduling at statement granularity", "storage error source (verifhook.Fault)"},
+			Assumptions: []string{"the cold references are computed by the engine itself (fresh session, fresh engine): a defect shared by warm and cold paths of a single statement is C02's business, not C11's"},
+			Subs: []subCheck{
+				{ID: "C11", World: "sqlsim", Quick: 2400, Thorough: 200000, QuickCap: 80, ThoroughCap: 1500, GC: "100",
+					Probes: []string{"fresh-engine-compared", "prepared", "rollback", "session-drop"}},
+			},
+		},
+		propCheck{
 			ID: "C20", Level: "exploration",
 			Rule: "one evaluation = one simulated history on a table with an AUTO_INCREMENT primary key (INT / BIGINT / INT UNSIGNED / TINYINT UNSIGNED, optional UNIQUE key for failing inserts): multi-row inserts mixing NULL / 0 / omitted / explicit ids (above the maximum, unused below it, existing), inserts failing at a drawn row, injected storage errors, deletes of the maximum row and of everything, ALTER TABLE .. AUTO_INCREMENT = n below and above the maximum, BEGIN/COMMIT/ROLLBACK, session drops, 1-2 sessions with never-overlapping writers; oracle: every generated and stored value is unique among all generated values ever stored, greater than every value stored before the statement, increasing inside a statement; OkResult.InsertID and LAST_INSERT_ID() = first generated value of the session's last successful generating insert, unchanged by failed inserts and by other sessions; non-trivial = 2 sessions or a fault fired; distinct = distinct hash of the action/outcome sequence",
 			Real: []string{"insert iterator auto-increment handling, accumulator OK result", "memory table editor auto-increment counter, ALTER TABLE AUTO_INCREMENT"},
